@@ -253,7 +253,7 @@ def jobs(tier, seed):
             if q:
                 cfgs = [(1, 1, 3 if common_t else (3 if tid in ('T4', 'T5', 'T7') else 2))]
                 if tid in ('T1', 'T3', 'T6') and not reserved:
-                    cfgs.append((2, 3, 2 if tid != 'T1' else 1))
+                    cfgs.append((2, 3, 2))
             else:
                 cfgs = [(1, 1, 5 if common_t else 4), (2, 3, 2), (2, 4, 2 if tid in ('T1', 'T6') else 1)]
             for idlen, titlelen, n in cfgs:
